@@ -133,60 +133,6 @@ class NFA:
         return self.accepts(st)
 
 
-_PURE_ITER = {'range', 'len', 'enumerate', 'zip', 'list', 'tuple', 'sorted', 'reversed', 'iter'}
-
-
-def _test_key(test):
-    """(subject text, polarity-if-true) for a pure test of a name / attribute, else None.
-    `E`, `not E`, `E is None`, `E is not None` are all tests on the truthiness-ish state of E
-    (E is None => E falsy; only used to find *contradictions* between two tests of the same
-    form, so each form is keyed separately except for the `not` wrapper)."""
-    import ast as _ast
-    from .loader import norm as _norm
-    pol = True
-    while isinstance(test, _ast.UnaryOp) and isinstance(test.op, _ast.Not):
-        test = test.operand
-        pol = not pol
-    if isinstance(test, (_ast.Name, _ast.Attribute)):
-        return ('truth', _norm(test)), pol
-    if isinstance(test, _ast.Compare) and len(test.ops) == 1 and \
-            isinstance(test.ops[0], (_ast.Is, _ast.IsNot)) and \
-            isinstance(test.comparators[0], _ast.Constant) and test.comparators[0].value is None \
-            and isinstance(test.left, (_ast.Name, _ast.Attribute)):
-        if isinstance(test.ops[0], _ast.IsNot):
-            pol = not pol
-        return ('isnone', _norm(test.left)), pol
-    return None
-
-
-def _invalidates(node) -> bool:
-    """May executing this node change the value of a tested name/attribute?"""
-    import ast as _ast
-    from .loader import walk_shallow as _ws, call_name as _cn
-    a = node.ast
-    if a is None or node.kind in ('branch', 'entry', 'exit', 'raise', 'join', 'dispatch', 'handler'):
-        return False
-    roots = [a.iter] if node.kind == 'for' else ([i.context_expr for i in a.items]
-                                                 if node.kind in ('with',) else [a])
-    if node.kind == 'with_exit':
-        return True
-    for r in roots:
-        if isinstance(r, (_ast.Assign, _ast.AugAssign, _ast.AnnAssign, _ast.Delete)):
-            return True
-        for x in _ws(r):
-            if isinstance(x, _ast.Await):
-                return True
-            if isinstance(x, _ast.Call):
-                if node.kind == 'for' and _cn(x) in _PURE_ITER:
-                    continue
-                if _cn(x) in ('log_debug', 'log_info', 'log_warning', 'log_error', 'isinstance'):
-                    continue
-                return True
-            if isinstance(x, _ast.NamedExpr):
-                return True
-    return False
-
-
 def check_language(cfg, spec: str, events, exits, start=None, labels_excluded=(),
                    prune_tests=False):
     """
@@ -216,31 +162,10 @@ def check_language(cfg, spec: str, events, exits, start=None, labels_excluded=()
         return states
 
     def facts_after(facts, nid):
-        """Known outcomes of pure tests, updated by executing node nid; None = infeasible."""
         if not prune_tests:
             return facts
-        n = cfg.nodes[nid]
-        if n.kind == 'branch':
-            k = _test_key(n.test.ast)
-            if k is None:
-                return facts
-            key, pol_if_true = k
-            outcome = pol_if_true if n.polarity else (not pol_if_true)
-            d = dict(facts)
-            if key in d and d[key] != outcome:
-                return None
-            d[key] = outcome
-            return frozenset(d.items())
-        if n.kind == 'stmt' and n.ast is not None and type(n.ast).__name__ == 'Assert':
-            k = _test_key(n.ast.test)
-            if k is not None:       # a stated belief of the authors
-                d = dict(facts)
-                d[k[0]] = k[1]
-                return frozenset(d.items())
-            return facts
-        if facts and _invalidates(n):
-            return frozenset()
-        return facts
+        from .cfg import _facts_after
+        return _facts_after(cfg, facts, nid)
 
     init = (start.id, advance(nfa.initial(), start.id), frozenset())
     prev = {init: None}
